@@ -957,6 +957,18 @@ def m_into_iter(ex, c, a, m):
     return v if not isinstance(v, Ref) else dv
 
 
+@model(r'(std|core)::iter::from_fn::<.+>')
+def m_from_fn(ex, c, a, m):
+    """an iterator that calls the closure until it returns None (bounded by the engine's loop bound)"""
+    out = []
+    for _ in range(64):
+        r = ex.call_closure(Ref([a[0]], 0) if not isinstance(a[0], Ref) else a[0], [])
+        if r.variant == 'None':
+            return PyIter(out)
+        out.append(r.fields[0])
+    raise Bound('from_fn iterator longer than 64 items')
+
+
 @model(r'.* as Iterator>::(map|filter_map|filter|take_while|skip_while|map_while)::<.+>')
 def m_iter_adapt(ex, c, a, m):
     return LazyIter(m.group(1), a[0], a[1])
@@ -998,9 +1010,11 @@ def m_collect(ex, c, a, m):
     raise Unmodelled('collect into ' + tgt)
 
 
-@model(r'.* as Iterator>::(count|last|any|all|for_each|find|position|fold|chain|enumerate|rev|skip|take|zip|peekable|cloned|copied|flatten|flat_map|nth|sum|max|min)(::<.*>)?')
+@model(r'.* as Iterator>::(count|last|any|all|for_each|find|position|fold|chain|enumerate|rev|skip|take|zip|peekable|cloned|copied|flatten|flat_map|nth|sum|max|min|by_ref)(::<.*>)?')
 def m_iter_misc(ex, c, a, m):
     op = m.group(1)
+    if op == 'by_ref':
+        return a[0]
     if op == 'flatten':
         out = []
         for x in drain(ex, a[0]):
@@ -1719,14 +1733,17 @@ def m_int_eq(ex, c, a, m):
     return r if m.group(2) == 'eq' else znot(r)
 
 
-@model(r'<Option<(u64|usize|u8|i64|u32|bool|char)> as PartialEq>::eq')
+@model(r'<Option<(u64|usize|u8|i64|u32|bool|char|(?:\w+::)*VfsFileType)> as PartialEq>::eq')
 def m_opt_int_eq(ex, c, a, m):
     x, y = d(a[0]), d(a[1])
     if x.variant != y.variant:
         return False
     if x.variant == 'None':
         return True
-    return ex.binop(ex.cur_fn, 'Eq', d(x.fields[0]), d(y.fields[0]), m.group(1))
+    px, py = d(x.fields[0]), d(y.fields[0])
+    if type(px) is Adt and type(py) is Adt:
+        return px.variant == py.variant          # field-less enum
+    return ex.binop(ex.cur_fn, 'Eq', px, py, m.group(1))
 
 
 @model(r'<(.+) as PartialEq(<.+>)?>::ne')
@@ -1771,6 +1788,23 @@ def m_time_cmp(ex, c, a, m):
     else:
         o = Adt('Ordering', 'Greater', [])
     return Some(o) if op == 'partial_cmp' else o
+
+
+@model(r'<Option<SystemTime> as PartialOrd>::(lt|le|gt|ge)|<Option<SystemTime> as Ord>::(max|min)')
+def m_opt_time_cmp(ex, c, a, m):
+    """derived ordering of Option: None < Some(_), Some compared by payload"""
+    x, y = d(a[0]), d(a[1])
+    op = m.group(1) or m.group(2)
+    if x.variant == 'Some' and y.variant == 'Some':
+        if op in ('max', 'min'):
+            r = m_time_cmp(ex, '<SystemTime as Ord>::' + op, [x.fields[0], y.fields[0]], re.fullmatch(r'<SystemTime as PartialOrd>::(lt|le|gt|ge|partial_cmp)|<SystemTime as Ord>::(cmp|max|min)', '<SystemTime as Ord>::' + op))
+            return Some(r)
+        return m_time_cmp(ex, c, [x.fields[0], y.fields[0]], re.fullmatch(r'<SystemTime as PartialOrd>::(lt|le|gt|ge|partial_cmp)|<SystemTime as Ord>::(cmp|max|min)', '<SystemTime as PartialOrd>::' + op))
+    rank = lambda o: 1 if o.variant == 'Some' else 0
+    if op in ('max', 'min'):
+        big, small = (x, y) if rank(x) > rank(y) else (y, x)
+        return big if op == 'max' else small
+    return {'lt': rank(x) < rank(y), 'le': rank(x) <= rank(y), 'gt': rank(x) > rank(y), 'ge': rank(x) >= rank(y)}[op]
 
 
 # ------------------------------------------------------------------------------------------ rust-embed (C18)
